@@ -2,92 +2,136 @@ import WcModel.Proofs.WcWalk
 /-
   C15 — a WcMatch object can be killed, reset and re-run with prefix-exact results.
 
-  Model: `Model/WcWalk.lean`.  The abort flag is *read* only at the three poll sites of `_walk` and
+  Model: `Model/WcWalk.lean`.  The abort flag is *read* only at the four poll sites of `_walk` and
   *written* only by `kill()` / `reset()`; so a hook that kills, the consumer acting between two
   `next()`s, or another thread at any byte-code are all represented by the values the polls observe:
   `Oracle = Ctr → Bool`, the answer of the poll issued at clock `c` (polls / hook invocations /
   yielded values so far).  `Mono o`: once true, always true — no `reset()` during the run.
+  `PollBlind o`: the answer does not depend on the poll counter — every single-threaded history
+  (`kill()` / `reset()` from hooks, or by the consumer between two `next()`), monotone or not.
+  Both imply `Latched o` (a poll that answered true is followed by a true answer when nothing but
+  that poll happened in between), which is all the walk needs.
 
   Theorems quantify over ALL trees, configurations, hook tables and oracles.
 
   Reading notes (reported, not hidden):
-  * `C15_prefix_partial` needs `DirSilent`: no value is yielded from inside the FOLDER loop (true for the
-    base-class `on_error`).  Without it the prefix claim is FALSE on the code: `C15_D20_witness`.
-  * `C15_overshoot` states the bound the code gives: after a true poll at the folder site ONE more
-    file is visited (the folder loop is left before the file loop runs); whether "the file being
-    processed" of the property covers that file is a reading.
-  * a `reset()` in mid-iteration (non-monotone oracle) lets the walk enter un-pruned directories:
-    `C15_D19_witness`.  The monotone theorems do not depend on it.
+  * `C15_prefix` is the FULL statement: no hypothesis on the hook table.  Until the repair of D20
+    (`_walk` polls once more after the folder loop and leaves the walk, wcmatch.py:280-282) it needed
+    `DirSilent` — no value yielded from inside the folder loop — and was false without it; the old
+    counterexample now gives a prefix: `C15_D20_fixed_witness`.
+  * `C15_overshoot` states what the code does after the first poll that observes the flag: nothing
+    but at most ONE more poll, which answers true and leaves the walk.  No file is visited any more
+    (before the repair: one more file after a true poll at the folder site).
+  * a `reset()` in mid-iteration (non-monotone oracle) is covered by `C15_prefix_single_thread`: the
+    walk is left by the poll that follows the observing one, so it can no longer continue into
+    directories that were never validated (D19; old input: `C15_D19_fixed_witness`).
 -/
 namespace WcModel.C15
 open WcModel.WcWalk
 
 variable {V : Type}
 
-/-  FULL STATEMENT (false on the code, see `C15_D20_witness`):
-      theorem C15_prefix (o) (hm : Mono o) (cfg) (hk : Hooks V) (t) :
-        results (run o cfg hk t) <+: results (run (fun _ => false) cfg hk t)
-    What is missing is exactly `DirSilent cfg hk` — no value is yielded from inside the folder loop.  It
-    holds for every hook table whose `on_error` returns `None` (`C15_prefix_default_onError`: the
-    base class, and every subclass that does not override `on_error`) and for every hook table whose
-    directory validation does not raise (`dirSilent_of_noraise`). -/
-
-/-- **C15 prefix.**  Under a monotone oracle what has been yielded is a prefix of the uninterrupted
-    result sequence. -/
-theorem C15_prefix_partial (o : Oracle) (hm : Mono o) (cfg : Cfg) (hk : Hooks V) (hs : DirSilent cfg hk) (t : Tree) :
+/-- **C15 prefix (full statement).**  Under a monotone oracle what has been yielded is a prefix of the
+    uninterrupted result sequence — for every tree, configuration and hook table (validation hooks
+    and comparisons may raise, on_match / on_skip / on_error may return values or `None`). -/
+theorem C15_prefix (o : Oracle) (hm : Mono o) (cfg : Cfg) (hk : Hooks V) (t : Tree) :
     results (run o cfg hk t) <+: results (run (fun _ => false) cfg hk t) := by
   rw [run_false]
-  exact run_prefix hm hs t
+  exact run_prefix hm.latched cfg hk t
 
-/-- the base-class `on_error` returns `None`, so the hypothesis of `C15_prefix` holds whatever the
-    validation hooks and the comparisons do -/
-theorem dirSilent_of_onError_none (cfg : Cfg) (hk : Hooks V) (h : ∀ p, hk.onError p = none) : DirSilent cfg hk :=
-  fun rel n _ => h (rel ++ [n])
+/-- the same for every latched oracle (`Mono.latched`, `PollBlind.latched`) -/
+theorem C15_prefix_latched (o : Oracle) (hl : Latched o) (cfg : Cfg) (hk : Hooks V) (t : Tree) :
+    results (run o cfg hk t) <+: results (run (fun _ => false) cfg hk t) := by
+  rw [run_false]
+  exact run_prefix hl cfg hk t
 
-/-- … as does "directory validation never raises" -/
-theorem dirSilent_of_noraise (cfg : Cfg) (hk : Hooks V)
-    (h : ∀ rel n, (validFolder cfg hk rel n).2 ≠ .raise) : DirSilent cfg hk :=
-  fun rel n hr => absurd hr (h rel n)
-
-/-- full strength for the base-class `on_error` (any validation hooks, any raising comparison, any
-    on_match / on_skip): every monotone oracle gives a prefix -/
-theorem C15_prefix_default_onError (o : Oracle) (hm : Mono o) (cfg : Cfg) (hk : Hooks V)
-    (h : ∀ p, hk.onError p = none) (t : Tree) :
+/-- **C15 prefix, single-threaded histories (monotone or NOT).**  Whatever `kill()` / `reset()` calls
+    the hooks make and the consumer makes between two `next()` of one generator — in particular a
+    `reset()` in mid-iteration — the values yielded are a prefix of the uninterrupted results.
+    (Before the repair of D20 this was false: D19.) -/
+theorem C15_prefix_single_thread (o : Oracle) (hb : PollBlind o) (cfg : Cfg) (hk : Hooks V) (t : Tree) :
     results (run o cfg hk t) <+: results (run (fun _ => false) cfg hk t) :=
-  C15_prefix_partial o hm cfg hk (dirSilent_of_onError_none cfg hk h) t
+  C15_prefix_latched o hb.latched cfg hk t
+
+/-- … for the oracle the object-level `next` uses (`Obj.step`): the flag while the (i+1)-th value is
+    produced is `segs[i]`, for EVERY list `segs` (any interleaving of kill / reset between the `next`s) -/
+theorem C15_prefix_reset_between_next (segs : List Bool) (cfg : Cfg) (hk : Hooks V) (t : Tree) :
+    results (run (fun c => segs.getD c.yields true) cfg hk t) <+: results (run (fun _ => false) cfg hk t) :=
+  C15_prefix_single_thread _ (pollBlind_yields (fun y => segs.getD y true)) cfg hk t
+
+/-- **C15 prefix, whole trace.**  Not only the values: every hook invocation and every value of the
+    interrupted run, in order (everything but the polls), is an initial segment of the uninterrupted
+    run's.  So an interrupted walk never validates a directory, visits a file or reports an error
+    that the uninterrupted walk does not — it never enters a directory the complete walk does not
+    enter. -/
+theorem C15_trace_prefix (o : Oracle) (hl : Latched o) (cfg : Cfg) (hk : Hooks V) (t : Tree) :
+    (run o cfg hk t).filterMap nonPoll <+: (run (fun _ => false) cfg hk t).filterMap nonPoll := by
+  rw [run_false]
+  exact run_view_prefix pollFree_nonPoll hl cfg hk t
 
 /-- the brief's form: the oracle is a function of the poll index only -/
 theorem C15_prefix_polls (f : Nat → Bool) (hf : ∀ i j, i ≤ j → f i = true → f j = true)
-    (cfg : Cfg) (hk : Hooks V) (hs : DirSilent cfg hk) (t : Tree) :
+    (cfg : Cfg) (hk : Hooks V) (t : Tree) :
     results (run (fun c => f c.polls) cfg hk t) <+: results (run (fun _ => false) cfg hk t) :=
-  C15_prefix_partial _ (fun _ _ h hc => hf _ _ h.1 hc) cfg hk hs t
+  C15_prefix _ (fun _ _ h hc => hf _ _ h.1 hc) cfg hk t
 
 /-- `kill()` inside the k-th hook invocation (k = 0: before the run starts), for every k -/
-theorem C15_prefix_kill_in_hook (k : Nat) (cfg : Cfg) (hk : Hooks V) (hs : DirSilent cfg hk) (t : Tree) :
+theorem C15_prefix_kill_in_hook (k : Nat) (cfg : Cfg) (hk : Hooks V) (t : Tree) :
     results (run (fun c => decide (k ≤ c.hooks)) cfg hk t) <+: results (run (fun _ => false) cfg hk t) :=
-  C15_prefix_partial _ (mono_hooks k) cfg hk hs t
+  C15_prefix _ (mono_hooks k) cfg hk t
 
 /-- `kill()` by the consumer after it has received k values, for every k -/
-theorem C15_prefix_kill_between_yields (k : Nat) (cfg : Cfg) (hk : Hooks V) (hs : DirSilent cfg hk) (t : Tree) :
+theorem C15_prefix_kill_between_yields (k : Nat) (cfg : Cfg) (hk : Hooks V) (t : Tree) :
     results (run (fun c => decide (k ≤ c.yields)) cfg hk t) <+: results (run (fun _ => false) cfg hk t) :=
-  C15_prefix_partial _ (mono_yields k) cfg hk hs t
+  C15_prefix _ (mono_yields k) cfg hk t
 
 /-- if no poll of the run observed the flag, and the clock is not hot at the end, the run is complete:
     identical event sequence -/
 theorem C15_complete_if_cold (o : Oracle) (hm : Mono o) (cfg : Cfg) (hk : Hooks V) (t : Tree)
     (h : o (advance {} (run o cfg hk t)) = false) : run o cfg hk t = run (fun _ => false) cfg hk t := by
   rw [run_false]
-  exact run_cold hm cfg hk t h
+  exact run_cold hm.latched cfg hk t h
 
-/-- **C15 overshoot.**  After the FIRST poll that observes the flag (at site `s`): no directory is
-    validated any more, every later poll answers true, and at most `bound s` further files are visited —
-    none after the top-of-directory and the after-file polls, ONE after the after-folder poll. -/
+/-- **C15 overshoot.**  After the FIRST poll that observes the flag (at site `s`) the walk does nothing
+    but, at most, poll once more (`After`): nothing after the top-of-directory poll and after the poll
+    that follows the folder loop; exactly that poll after an after-folder poll; at most the
+    top-of-directory poll of the next directory after an after-file poll.  That poll answers true and
+    leaves the walk. -/
 theorem C15_overshoot (o : Oracle) (hm : Mono o) (cfg : Cfg) (hk : Hooks V) (t : Tree)
-    (s : Site) (post : List (Ev V)) (h : afterTrue (run o cfg hk t) = some (s, post)) :
-    (fileVisits post).length ≤ bound s ∧ quiet post = true :=
-  run_over hm cfg hk t s post h
+    (s : Site) (post : List (Ev V)) (h : afterTrue (run o cfg hk t) = some (s, post)) : After s post :=
+  run_over hm.latched cfg hk t s post h
 
-theorem bound_values : bound .top = 0 ∧ bound .file = 0 ∧ bound .folder = 1 := ⟨rfl, rfl, rfl⟩
+/-- … for every latched oracle -/
+theorem C15_overshoot_latched (o : Oracle) (hl : Latched o) (cfg : Cfg) (hk : Hooks V) (t : Tree)
+    (s : Site) (post : List (Ev V)) (h : afterTrue (run o cfg hk t) = some (s, post)) : After s post :=
+  run_over hl cfg hk t s post h
+
+/-- … in the vocabulary of the property: after the first poll that observes the flag NO file is
+    visited (the overshoot is zero files at every site), no directory is validated, every poll answers
+    true, no value is yielded, no hook is invoked, and at most one event (a poll) follows. -/
+theorem C15_overshoot_none (o : Oracle) (hm : Mono o) (cfg : Cfg) (hk : Hooks V) (t : Tree)
+    (s : Site) (post : List (Ev V)) (h : afterTrue (run o cfg hk t) = some (s, post)) :
+    fileVisits post = [] ∧ quiet post = true ∧ results post = [] ∧ post.filterMap nonPoll = [] ∧
+      post.length ≤ 1 :=
+  (C15_overshoot o hm cfg hk t s post h).calm
+
+/-- **C15 pacing (EVERY oracle).**  Between two consecutive polls of a run all hook invocations are
+    about ONE path: every validated directory and every visited file is followed by a poll before
+    anything else is looked at.  So whenever `kill()` is called — inside a hook invocation, or by the
+    consumer right after a value — only the file (directory) being processed is finished before a
+    poll observes the flag; what happens after that poll is `C15_overshoot`. -/
+theorem C15_paced (o : Oracle) (cfg : Cfg) (hk : Hooks V) (t : Tree) : paced none (run o cfg hk t) = true :=
+  paced_run o cfg hk t
+
+/-- `paced` is not vacuous: a second file before a poll is rejected -/
+example : paced none ([.vfile ["a".toList], .hskip ["a".toList], .vfile ["b".toList]] : List (Ev Unit)) = false := by
+  decide
+
+theorem after_values (post : List (Ev V)) :
+    (After .top post ↔ post = []) ∧ (After .mid post ↔ post = []) ∧
+    (After .folder post ↔ post = [.poll .mid true]) ∧
+    (After .file post ↔ (post = [] ∨ post = [.poll .top true])) :=
+  ⟨Iff.rfl, Iff.rfl, Iff.rfl, Iff.rfl⟩
 
 /-- **C15 routing (values).**  For EVERY oracle (monotone or not): the yielded values are exactly the
     non-`None` return values of on_match / on_skip / on_error, unchanged, in invocation order. -/
@@ -227,32 +271,52 @@ def cfg19 : Cfg :=
     hasExclude := true, fileDec := fun _ => .ret true, dirExcl := fun p => .ret (p == ["skipme".toList]) }
 
 /-- non-vacuity of the monotone theorems: `kill()` inside the 2nd hook invocation (the first
-    on_validate_directory).  The flag is first observed at the folder site, ONE more file (`f1`) is
-    visited and yielded, then the walk stops: prefix with an overshoot of one file — the bound of
-    `C15_overshoot` is attained. -/
+    on_validate_directory).  The flag is first observed at the folder site; the poll after the folder
+    loop answers true and the walk ends: no file is visited (before the repair of D20: `f1` was). -/
 theorem C15_overshoot_attained :
-    results (run (fun c => decide (2 ≤ c.hooks)) cfg19 Hooks.default tree19) = [["f1".toList]] ∧
+    run (fun c => decide (2 ≤ c.hooks)) cfg19 Hooks.default tree19
+      = [.reset, .poll .top false, .vdir ["d".toList], .poll .folder true, .poll .mid true] ∧
     results (run (fun _ => false) cfg19 Hooks.default tree19) = [["f1".toList], ["f2".toList]] ∧
-    (afterTrue (run (fun c => decide (2 ≤ c.hooks)) cfg19 Hooks.default tree19)).map
-        (fun x => (x.1, (fileVisits x.2).length)) = some (.folder, 1) := by
+    afterTrue (run (fun c => decide (2 ≤ c.hooks)) cfg19 Hooks.default tree19)
+      = some (.folder, [.poll .mid true]) := by
   decide +kernel
 
-/-- non-vacuity: the hypotheses of the monotone theorems are met by the witness above -/
+/-- … and `kill()` by the consumer after the first value: observed at the file site, the next
+    directory's top poll follows (the second alternative of `After .file`) -/
+theorem C15_overshoot_attained_file :
+    results (run (fun c => decide (1 ≤ c.yields)) cfg19 Hooks.default tree19) = [["f1".toList]] ∧
+    afterTrue (run (fun c => decide (1 ≤ c.yields)) cfg19 Hooks.default tree19)
+      = some (.file, [.poll .top true]) := by
+  decide +kernel
+
+/-- non-vacuity: the hypotheses of the monotone theorems are met by the witnesses above -/
 example : Mono (fun c => decide (2 ≤ c.hooks)) := mono_hooks 2
-example : DirSilent cfg19 Hooks.default := dirSilent_of_onError_none _ _ (fun _ => rfl)
+example : Mono (fun c => decide (1 ≤ c.yields)) := mono_yields 1
 example : tree19.WF := by simp [tree19, Tree.WF, names]
 /-- non-vacuity of the object-level theorems: a live object, an aborted object -/
 example : ({} : Obj).flag = false := rfl
 example : (({} : Obj).step cfg19 Hooks.default tree19 .kill).1.flag = true := rfl
 
-/-- **D19 (reading-dependent).**  The same kill, but the consumer calls `reset()` after the first
-    value and keeps iterating (non-monotone oracle): the folder loop was left with `skipme` still in
-    `dirs`, `os.walk` descends into it, and `skipme/s` — which the uninterrupted run never yields — is
-    yielded.  Not a prefix, not even a subsequence. -/
-theorem C15_D19_witness :
-    results (run (fun c => decide (2 ≤ c.hooks) && c.yields == 0) cfg19 Hooks.default tree19)
-      = [["f1".toList], ["f2".toList], ["skipme".toList, "s".toList]] ∧
+/-- **D19, repaired** (`fix:` commit 68e0067).  The old input: the same kill, and the consumer calls
+    `reset()` after the first value and keeps iterating (non-monotone oracle, `PollBlind`).  Before the
+    repair the folder loop was left with `skipme` still in `dirs`, the file loop yielded `f1`, the reset
+    took effect and `os.walk` descended into `skipme`: `[f1, f2, skipme/s]`.  Now the poll after the
+    folder loop leaves the walk: no value at all, `skipme` is never entered, and the consumer never
+    gets the chance to reset in mid-iteration. -/
+theorem C15_D19_fixed_witness :
+    PollBlind (fun c => decide (2 ≤ c.hooks) && c.yields == 0) ∧
+    run (fun c => decide (2 ≤ c.hooks) && c.yields == 0) cfg19 Hooks.default tree19
+      = [.reset, .poll .top false, .vdir ["d".toList], .poll .folder true, .poll .mid true] ∧
     results (run (fun _ => false) cfg19 Hooks.default tree19) = [["f1".toList], ["f2".toList]] := by
+  refine ⟨fun _ => rfl, by decide +kernel, by decide +kernel⟩
+
+/-- … and a `reset()` that does take effect in mid-iteration (the consumer kills after the first
+    value and resets after the second `next()`, which raises StopIteration): still a prefix, the
+    excluded directory is not entered -/
+theorem C15_D19_fixed_witness_segs :
+    results (run (fun c => [false, true, false].getD c.yields true) cfg19 Hooks.default tree19) = [["f1".toList]] ∧
+    (run (fun c => [false, true, false].getD c.yields true) cfg19 Hooks.default tree19).filterMap nonPoll
+      = [.reset, .vdir ["d".toList], .vfile ["f1".toList], .hmatch ["f1".toList], .yield ["f1".toList]] := by
   decide +kernel
 
 /-- hooks for D20: directory validation raises everywhere, `on_error` returns the path -/
@@ -267,19 +331,18 @@ def cfg20 : Cfg :=
   { recursive := true, hidden := false, symlinks := false, filePathname := false, dirPathname := false,
     hasExclude := false, fileDec := fun _ => .ret true, dirExcl := fun _ => .ret false }
 
-/-- **D20.**  the full `C15_prefix` (without `DirSilent`) is false: when on_validate_directory raises for two
-    sibling directories, on_error returns a value, and `kill()` is called in between (here: inside the
-    2nd hook invocation), the folder loop is left after the first error value, the file loop still
-    yields `f1`, and the second error value — which precedes `f1` in the uninterrupted sequence — is
-    missing: monotone oracle, result NOT a prefix. -/
-theorem C15_D20_witness :
+/-- **D20, repaired** (`fix:` commit 68e0067).  The old input: on_validate_directory raises for two sibling
+    directories, on_error returns a value, and `kill()` is called in between (inside the 2nd hook
+    invocation).  Before the repair the folder loop was left after the first error value, the file
+    loop still yielded `f1`, and the second error value — which precedes `f1` in the uninterrupted
+    sequence — was missing: `[d1, f1]`, not a prefix of `[d1, d2, f1]`.  Now the walk ends after the
+    folder loop: `[d1]`, a prefix.  (The hook table does yield from inside the folder loop: the case
+    the theorem used to exclude.) -/
+theorem C15_D20_fixed_witness :
     Mono (fun c => decide (2 ≤ c.hooks)) ∧
-    results (run (fun c => decide (2 ≤ c.hooks)) cfg20 hooks20 tree20) = [["d1".toList], ["f1".toList]] ∧
+    results (run (fun c => decide (2 ≤ c.hooks)) cfg20 hooks20 tree20) = [["d1".toList]] ∧
     results (run (fun _ => false) cfg20 hooks20 tree20) = [["d1".toList], ["d2".toList], ["f1".toList]] ∧
-    ¬ DirSilent cfg20 hooks20 := by
-  refine ⟨mono_hooks 2, by decide +kernel, by decide +kernel, ?_⟩
-  intro h
-  have := h [] "d1".toList (by decide +kernel)
-  cases this
+    (validFolder cfg20 hooks20 [] "d1".toList).2 = .raise ∧ hooks20.onError ["d1".toList] = some ["d1".toList] := by
+  refine ⟨mono_hooks 2, by decide +kernel, by decide +kernel, by decide +kernel, rfl⟩
 
 end WcModel.C15
